@@ -19,22 +19,32 @@ from zope.interface import implementer
 
 HEADLINE = "TwistedProps.C40.body_transparent"
 RULE = ("e2e: bodies of 0..7 lines drawn from a pool rich in '.', '..', '.x', SMTP command words, header-like and empty "
-        "lines (a minority unterminated / with CR / with over-long lines: tie only), client reads chunked by CHUNK_SIZE 1.. or by "
-        "scheduled short reads, the DATA stream cut into one piece / single bytes / random pieces (empty pieces included), server "
-        "MAX_LENGTH at the default or at the longest wire line -2..+2, SMTP and ESMTP servers, 1-2 recipients, with/without a "
-        "Received header, sometimes as the second message of a session (after an unterminated one); srv: raw streams (bare CR/LF, dots, long lines) randomly segmented into a server in DATA mode; "
-        "distinct = (op, server, dot at message start, dot after a read boundary, lone-dot line, read style, cut style, "
-        "event kinds, final mode)")
+        "lines, plus lines of arbitrary bytes other than CR/LF (NUL, controls, str.splitlines() separators, UTF-8, 8-bit; ~1/3 of bodies) "
+        "(a minority unterminated / with CR / with over-long lines: tie only), client reads chunked by CHUNK_SIZE 1.. or by "
+        "scheduled short reads or left at the class's CHUNK_SIZE, the DATA stream cut into one piece / single bytes / random pieces "
+        "(empty pieces included), server MAX_LENGTH as the class defines it (40%) / set to 16384 / at the longest wire line -2..+2; "
+        "~3.5% 'big' bodies with lines of 997..1002, 2048..8192, 16382..16384 bytes and a dot line exactly at the real 16384-byte read "
+        "boundary, class limits untouched, stream cut around the ends of the long lines (before CR, between CR and LF, after LF); "
+        "SMTP and ESMTP servers, 1-3 recipients, with/without a Received header; the client's transport either waits for the harness "
+        "to call resumeProducing or (40%) calls it from inside registerProducer as FileDescriptor does; SMTP.noisy/SMTPClient.debug "
+        "off or (35%) at the class defaults; 25% as the 2nd/3rd message of a session, after unterminated/empty/header-only messages "
+        "and after messages refused by their IMessage (SMTPServerError on the first line: 550 at the end of DATA, or at the DATA "
+        "command when a Received header is generated); srv: raw streams (bare CR/LF, dots, long lines) randomly segmented into a "
+        "server in DATA mode; distinct = (op, server, scope, session history, dot at message start, dot after a read boundary, "
+        "lone-dot line, read style, cut style, limit style, eager transport, default switches, 8-bit bytes, long lines, event kinds, final mode)")
 ASSUMES = [
     "the body has no CR and every line ends with LF (the property's own precondition)",
     "every line, after dot-stuffing, is at most the server's LineOnlyReceiver.MAX_LENGTH (default 16384) bytes long and MAX_LENGTH >= 1: "
     "a longer line makes the server reply '500 Line too long' and leave DATA mode (documented line-length limit, not transparency)",
-    "IMessage.lineReceived does not raise (the server's `datafailed` path is not modelled)",
+    "the IMessage of the message under test does not raise from lineReceived (the server's `datafailed` path is not modelled); "
+    "EARLIER messages of the session may be refused that way - nothing of it may leak into the message under test",
+    "the server's line limit is the documented LineOnlyReceiver.MAX_LENGTH = 16384 unless the case sets another one",
     "the server's replies reach the client after it has written its terminator (the server sends nothing during DATA when the property holds)",
     "every read of the message file returns at least one byte until EOF (an empty read is EOF for FileSender)",
 ]
 TRUSTED = [
-    "twisted.internet.testing.StringTransport as both transports (write/writeSequence concatenate; pull producer driven by the harness)",
+    "twisted.internet.testing.StringTransport as both transports (write/writeSequence concatenate; the pull producer is driven by the "
+    "harness until it unregisters, with or without a first synchronous resumeProducing from registerProducer)",
     "bytes.replace / bytes.split semantics as transcribed (left to right, non-overlapping)",
 ]
 MANIFEST = {
@@ -42,7 +52,10 @@ MANIFEST = {
             "chunking of the client's reads and every segmentation of the DATA stream (stuffed lines at most MAX_LENGTH bytes), the server hands the message exactly the "
             "body's lines (after the blank-line insertion of dataLineReceived), ends the transfer exactly at the client's "
             "terminator and hands no line to the command interpreter. Model of FileSender/transformChunk/finishedFileTransfer and "
-            "LineOnlyReceiver.dataReceived/SMTP.dataLineReceived tied to the code by end-to-end differential runs.",
+            "LineOnlyReceiver.dataReceived/SMTP.dataLineReceived tied to the code by end-to-end differential runs (arbitrary non-CR/LF "
+            "bytes, lines up to the real 16384-byte limits, eager and lazy pull-producer transports, default logging switches). "
+            "body_transparent_in_session: the same after any earlier in-scope messages of the session (do_DATA resets the server); "
+            "sessions with earlier accepted and refused messages are run through the model (`sess`) and the code.",
     "note": "trusts Lean kernel, the hand-written model (differentially tied), StringTransport, CPython bytes.replace/split",
     "technique": "Lean 4 proof (byte transducer for the sender, split compositionality for the receiver, induction over chunks/segments) + differential tie",
     "design_ref": "DESIGN.md §7 C40",
@@ -50,7 +63,8 @@ MANIFEST = {
 
 DEFAULT_MAX = 16384
 FROM = b"a@example.org"
-RCPTS = [b"r1@example.org", b"r2@example.org"]
+RCPTS = [b"r1@example.org", b"r2@example.org", b"r3@example.org"]
+REAL_CHUNK = 16384  # FileSender.CHUNK_SIZE as documented (2**14)
 HDR = b"Received: from harness"
 
 
@@ -63,11 +77,15 @@ def hx(b):
 
 @implementer(smtp.IMessage)
 class _Msg:
-    def __init__(self, log, i):
-        self.log, self.i = log, i
+    def __init__(self, log, i, raise_at=None):
+        self.log, self.i, self.raise_at, self.n = log, i, raise_at, 0
 
     def lineReceived(self, line):
         self.log.append(("L", self.i, bytes(line)))
+        self.n += 1
+        if self.raise_at is not None and self.n > self.raise_at:
+            # only ever an EARLIER message of the session (the property assumes the message under test accepts its lines)
+            raise smtp.SMTPServerError(550, b"message refused")
 
     def eomReceived(self):
         self.log.append(("E", self.i))
@@ -79,8 +97,8 @@ class _Msg:
 
 @implementer(smtp.IMessageDelivery)
 class _Delivery:
-    def __init__(self, log, hdr):
-        self.log, self.hdr, self.n = log, hdr, 0
+    def __init__(self, log, hdr, nrcpts=1, raise_at=()):
+        self.log, self.hdr, self.n, self.nrcpts, self.raise_at = log, hdr, 0, nrcpts, list(raise_at)
 
     def receivedHeader(self, helo, origin, recipients):
         return self.hdr
@@ -91,35 +109,43 @@ class _Delivery:
     def validateTo(self, user):
         i = self.n
         self.n += 1
-        return lambda: _Msg(self.log, i)
+        mail = i // self.nrcpts
+        ra = self.raise_at[mail] if mail < len(self.raise_at) else None
+        return lambda: _Msg(self.log, i, ra)
 
 
-def _mkserver(name, log, hdr):
+def _mkserver(name, log, hdr, nrcpts=1, raise_at=(), defaults=False):
     cls = smtp.ESMTP if name == "ESMTP" else smtp.SMTP
 
     class Srv(cls):
-        noisy = False
+        noisy = cls.noisy if defaults else False   # `defaults`: the class's own setting (log.msg has no observer here)
         timeout = None
 
         def state_COMMAND(self, line):
             log.append(("C", bytes(line)))
-            return cls.state_COMMAND(self, line)
+            try:
+                return cls.state_COMMAND(self, line)
+            except UnicodeDecodeError:
+                # SMTP.lookupMethod decodes the command word as ASCII; a non-ASCII line here is already recorded as
+                # `C` (a violation when in scope) and the interpretation of commands is not part of the comparison
+                return None
 
         def lineLengthExceeded(self, line):
             log.append(("X",))
             return cls.lineLengthExceeded(self, line)
 
     s = Srv()
-    s.delivery = _Delivery(log, hdr)
+    s.delivery = _Delivery(log, hdr, nrcpts, raise_at)
     return s
 
 
 class _Client(smtp.SMTPClient):
-    debug = False
-
-    def __init__(self, fobjs, rcpts):
+    def __init__(self, fobjs, rcpts, chunk=None, defaults=False):
         smtp.SMTPClient.__init__(self, b"client.example")
         self.fobjs, self.rcpts, self.calls, self.sent = fobjs, rcpts, 0, []
+        self.chunk, self.data_started = chunk, 0
+        if not defaults:
+            self.debug = False   # `defaults`: the class's own setting (debug = True: every sendLine is logged)
 
     def getMailFrom(self):
         self.calls += 1
@@ -129,10 +155,29 @@ class _Client(smtp.SMTPClient):
         return list(self.rcpts)
 
     def getMailData(self):
+        if self.calls == len(self.fobjs) and self.chunk is not None:
+            # the message under test: its reads are chunked as the case says (an eager transport reads the
+            # first chunk from inside registerProducer, so the size has to be in place before beginFileTransfer)
+            basic.FileSender.CHUNK_SIZE = self.chunk
         return self.fobjs[self.calls - 1]
+
+    def smtpState_data(self, code, resp):
+        self.data_mail = self.calls - 1   # which of the session's messages this DATA phase belongs to
+        self.data_started += 1
+        return smtp.SMTPClient.smtpState_data(self, code, resp)
 
     def sentMail(self, code, resp, numOk, addresses, log):
         self.sent.append((code, numOk))
+
+
+class _EagerTransport(StringTransport):
+    """StringTransport which treats a pull producer the way `abstract.FileDescriptor.registerProducer` does:
+    `if not streaming: producer.resumeProducing()` synchronously, from inside `registerProducer`."""
+
+    def registerProducer(self, producer, streaming):
+        StringTransport.registerProducer(self, producer, streaming)
+        if not streaming:
+            producer.resumeProducing()
 
 
 class _ShortReads:
@@ -159,11 +204,38 @@ def chunks_of(case):
                 break
             out.append(body[i:i + n])
             i += n
-        if i < len(body):
-            out.append(body[i:])
+        while i < len(body):
+            # the schedule is used up: full reads from here on (read(n) never returns more than n = CHUNK_SIZE bytes)
+            out.append(body[i:i + REAL_CHUNK])
+            i += REAL_CHUNK
         return out
-    k = case["chunk"]
+    k = case.get("chunk") or REAL_CHUNK
     return [body[i:i + k] for i in range(0, len(body), k)]
+
+
+def _prev_body(p):
+    return bytes.fromhex(p["body"] if isinstance(p, dict) else p)
+
+
+def _prev_raise(p):
+    return p.get("raise_at") if isinstance(p, dict) else None
+
+
+def _prev_code(p, hdr):
+    """the reply an earlier message must get: 250, or 550 when its IMessage refuses the first line it is handed
+    (None: not predicted)"""
+    ra = _prev_raise(p)
+    if ra is None:
+        return 250
+    if ra == 0:
+        return 550 if (hdr or _prev_body(p)) else 250
+    return None
+
+
+def _max(case):
+    """the line-length limit in force: `max` absent/None = whatever the server class says, documented as 16384"""
+    m = case.get("max", DEFAULT_MAX)
+    return DEFAULT_MAX if m is None else m
 
 
 def _cut(w, sizes):
@@ -199,16 +271,20 @@ def _session(case):
     log = []
     hdr = HDR if case.get("hdr") else None
     rcpts = RCPTS[:case.get("rcpts", 1)]
-    server = _mkserver(case["server"], log, hdr)
+    prevs = case.get("prev", [])
+    defaults = bool(case.get("defaults"))
+    server = _mkserver(case["server"], log, hdr, len(rcpts), [_prev_raise(p) for p in prevs], defaults)
     if case.get("reads") is not None:
         fobj = _ShortReads(chunks_of(case))
     else:
         fobj = io.BytesIO(bytes.fromhex(case["body"]))
-    # an earlier message of the same session (sent whole): the carry state must not leak into the next one
-    prev = [io.BytesIO(bytes.fromhex(p)) for p in case.get("prev", [])]
-    client = _Client(prev + [fobj], rcpts)
-    res_n = 0
-    st, ct = StringTransport(), StringTransport()
+    # earlier messages of the same session (sent whole; some are refused by their IMessage): no state of the
+    # client (carry byte, FileSender) or of the server (header flags, datafailed) may leak into the next one
+    prev = [io.BytesIO(_prev_body(p)) for p in prevs]
+    client = _Client(prev + [fobj], rcpts, case.get("chunk") if case.get("reads") is None else None, defaults)
+    handled = 0
+    st = StringTransport()
+    ct = _EagerTransport() if case.get("eager") else StringTransport()
     old_chunk = basic.FileSender.CHUNK_SIZE
     res = {"log": log, "phase": None, "wire": None}
     try:
@@ -216,34 +292,30 @@ def _session(case):
         client.makeConnection(ct)
         for _ in range(400):
             moved = False
-            if ct.producer is not None and res_n < len(prev):
-                # an earlier message: default chunking, delivered whole
-                res_n += 1
-                for _ in range(100000):
+            if client.data_started > handled:
+                # a DATA phase: let the pull producer run dry (the eager transport has already asked once)
+                idx = client.data_mail
+                handled += 1
+                for _ in range(1000000):
                     if ct.producer is None:
                         break
                     ct.producer.resumeProducing()
-                server.dataReceived(ct.value())
-                ct.clear()
-                moved = True
-            elif ct.producer is not None and res["wire"] is None:
-                # DATA phase: let the pull producer run dry, then deliver the stream as cut by the case
-                if case.get("reads") is None:
-                    basic.FileSender.CHUNK_SIZE = case["chunk"]
-                for _ in range(100000):
-                    if ct.producer is None:
-                        break
-                    ct.producer.resumeProducing()
+                basic.FileSender.CHUNK_SIZE = old_chunk
                 wire = ct.value()
                 ct.clear()
-                res["wire"] = wire
-                start = len(log)
-                server.MAX_LENGTH = case.get("max", DEFAULT_MAX)
-                for piece in _cut(wire, case["segs"]):
-                    server.dataReceived(piece)
-                res["phase"] = _show_phase(log[start:], server, len(prev) * len(rcpts))
-                basic.FileSender.CHUNK_SIZE = old_chunk
-                server.MAX_LENGTH = DEFAULT_MAX
+                if idx < len(prev):
+                    # an earlier message: default chunking, delivered whole
+                    server.dataReceived(wire)
+                else:
+                    # the message under test: deliver the stream as cut by the case
+                    res["wire"] = wire
+                    start = len(log)
+                    if case.get("max", DEFAULT_MAX) is not None:
+                        server.MAX_LENGTH = case.get("max", DEFAULT_MAX)
+                    for piece in _cut(wire, case["segs"]):
+                        server.dataReceived(piece)
+                    res["phase"] = _show_phase(log[start:], server, len(prev) * len(rcpts))
+                    server.__dict__.pop("MAX_LENGTH", None)
                 moved = True
             else:
                 w = ct.value()
@@ -307,7 +379,14 @@ def model_line(case):
     if case["op"] == "srv":
         return f"srv {case['max']} " + (";".join(s if s else "-" for s in case["segs"]) if case["segs"] else "_")
     cs = chunks_of(case)
-    return (f"e2e {case.get('max', DEFAULT_MAX)} " + (";".join(hx(c) for c in cs) if cs else "_") + " "
+    if case.get("prev"):
+        # the model runs the earlier messages too (those whose DATA command was accepted: an IMessage which refuses
+        # the generated Received header makes do_DATA reply 550 and no stream is sent) and models do_DATA's reset
+        ps = [_prev_body(p) for p in case["prev"] if not (_prev_raise(p) == 0 and case.get("hdr"))]
+        return (f"sess {_max(case)} " + (";".join(hx(b) for b in ps) if ps else "_") + " "
+                + (";".join(hx(c) for c in cs) if cs else "_") + " "
+                + (",".join(str(n) for n in case["segs"]) if case["segs"] else "_"))
+    return (f"e2e {_max(case)} " + (";".join(hx(c) for c in cs) if cs else "_") + " "
             + (",".join(str(n) for n in case["segs"]) if case["segs"] else "_"))
 
 
@@ -323,7 +402,7 @@ def in_scope(case):
     body = bytes.fromhex(case["body"])
     if b"\r" in body or (body and not body.endswith(b"\n")):
         return False
-    m = case.get("max", DEFAULT_MAX)
+    m = _max(case)
     lines = body.split(b"\n")[:-1]
     return m >= 1 and all(wire_len(l) <= m for l in lines)
 
@@ -351,7 +430,11 @@ def oracle(case, impl_out):
                 + [b"QUIT"])
     cmds = [e[1] for e in log if e[0] == "C"]
     exp_msg = ([("L", res["hdr"])] if res["hdr"] else []) + [("L", l) for l in header_handling(lines)] + [("E",)]
-    what = f"body={body!r} reads={[bytes(c) for c in chunks_of(case)]!r} wire={res['wire']!r}"
+    if len(body) <= 300:
+        what = f"body={body!r} reads={[bytes(c) for c in chunks_of(case)]!r} wire={res['wire']!r}"
+    else:
+        what = (f"body of {len(body)} bytes, lines of {[len(l) for l in lines][:12]!r} bytes, reads of "
+                f"{[len(c) for c in chunks_of(case)][:12]!r} bytes, wire of {len(res['wire'] or b'')} bytes")
     if cmds != exp_cmds:
         extra = [c for c in cmds if c not in exp_cmds]
         return {"key": "body-run-as-command",
@@ -372,8 +455,9 @@ def oracle(case, impl_out):
             else:
                 key = "lines-differ"
             return {"key": key, "detail": f"message {i} received {got!r}, expected {exp_msg!r}; {what}"}
-    if res["sent"] != [(250, len(rcpts))] * (nprev + 1):
-        return {"key": "not-accepted", "detail": f"sentMail calls {res['sent']!r}; {what}"}
+    exp_sent = [(_prev_code(p, res["hdr"]), len(rcpts)) for p in case.get("prev", [])] + [(250, len(rcpts))]
+    if len(res["sent"]) != len(exp_sent) or any(g != e and e[0] is not None for g, e in zip(res["sent"], exp_sent)):
+        return {"key": "not-accepted", "detail": f"sentMail calls {res['sent']!r}, expected {exp_sent!r}; {what}"}
     return None
 
 
@@ -390,15 +474,30 @@ def _hexbody(lines, terminated=True):
     return b.hex()
 
 
-def _e2e(body_hex, chunk=None, reads=None, segs=(), server="ESMTP", max_=DEFAULT_MAX, hdr=False, rcpts=1, prev=None):
+def _e2e(body_hex, chunk=None, reads=None, segs=(), server="ESMTP", max_=DEFAULT_MAX, hdr=False, rcpts=1, prev=None,
+         eager=False, defaults=False, real_chunk=False):
+    """`max_` None: the server's MAX_LENGTH is left as the class defines it; `real_chunk`: FileSender.CHUNK_SIZE is left
+    as the class defines it; `eager`: the client's transport asks the pull producer for the first chunk from inside
+    registerProducer (as FileDescriptor does); `defaults`: SMTP.noisy / SMTPClient.debug as the classes define them;
+    `prev` items: hex body, or {"body": hex, "raise_at": 0} = that earlier message's IMessage refuses its first line."""
     c = {"op": "e2e", "server": server, "body": body_hex, "segs": list(segs), "max": max_, "hdr": hdr, "rcpts": rcpts}
     if prev:
         c["prev"] = list(prev)
+    if eager:
+        c["eager"] = True
+    if defaults:
+        c["defaults"] = True
     if reads is not None:
         c["reads"] = list(reads)
+    elif real_chunk:
+        c["chunk"] = None
     else:
         c["chunk"] = chunk if chunk else DEFAULT_MAX
     return c
+
+
+def _refused(body):
+    return {"body": bytes(body).hex(), "raise_at": 0}
 
 
 def corpus():
@@ -425,6 +524,23 @@ def corpus():
         _e2e(_hexbody([b"abcdef", b".bcdef", b"RSET"]), max_=6, segs=[1] * 40),
         _e2e(_hexbody([b"abcdef", b".bcdef"]), max_=8, segs=[7, 1, 1, 7]),
         _e2e(_hexbody([b"abcdefgh", b"x"]), max_=6),
+        # --- classes added by the mutation audit (harness/mutants/C40) ---
+        # the line-length limit and the read size as the classes define them, lines near 1000 / 16384 bytes
+        _e2e(_hexbody([b"Subject: long", b"", b"x" * 999, b"." + b"y" * 1000, b"."]), max_=None, real_chunk=True),
+        _e2e(_hexbody([b"x" * 16384, b"." + b"y" * 16382, b".", b"RSET"]), max_=None, real_chunk=True,
+             segs=[16384, 1, 1, 16384, 1, 1]),
+        _e2e(_hexbody([b"a" * 16383, b".", b"QUIT", b"." * 9]), max_=None, real_chunk=True, segs=[16385, 5], eager=True),
+        # bytes outside ASCII, with the classes' own logging switches
+        _e2e(_hexbody([b"\xff\xfe", b".\x00", b"\x80:", b".", b"caf\xc3\xa9 \x0b\x0c\x85"]), chunk=3, defaults=True),
+        _e2e(_hexbody([b"\x00"]), defaults=True, server="SMTP", segs=[1] * 12),
+        # a transport that asks the pull producer from inside registerProducer (as FileDescriptor does)
+        _e2e("", eager=True),
+        _e2e(_hexbody([b".", b"RSET"]), eager=True, prev=[b"x".hex()]),
+        _e2e(_hexbody([b".x"]), eager=True, chunk=1, prev=[b"a\n.".hex()], server="SMTP"),
+        # an earlier message of the session was refused by its IMessage (in DATA / at the DATA command)
+        _e2e(_hexbody([b"hello", b".", b"bye"]), prev=[_refused(b"Subject: s\n\nbody\n")]),
+        _e2e(_hexbody([b".", b"NOOP"]), prev=[_refused(b"x\n")], hdr=True, rcpts=2, server="SMTP"),
+        _e2e("", prev=[b"x".hex()], rcpts=3),
         {"op": "srv", "server": "SMTP", "max": 5, "segs": ["6162630d", "0a2e2e0d0a2e0d0a52534554" + "0d0a"]},
         {"op": "srv", "server": "ESMTP", "max": 4, "segs": ["6162636465", "660d0a610d0a", "2e0d0a"]},
         {"op": "srv", "server": "SMTP", "max": 4, "segs": ["616263646566670d0a610d0a2e0d0a"]},
@@ -434,9 +550,19 @@ def corpus():
 
 def _line(rng):
     r = rng.random()
-    if r < 0.7:
+    if r < 0.62:
         return rng.choice(POOL)
+    if r < 0.74:
+        return rng.choice(BPOOL)
+    if r < 0.82:
+        # any byte but CR and LF (NUL, C1 controls, str.splitlines() separators, UTF-8, 8-bit), dots first
+        return bytes(rng.choice(BYTES) for _ in range(rng.randint(1, 6)))
     return bytes(rng.choice(b"..ab: .x") for _ in range(rng.randint(0, 7)))
+
+
+BYTES = b".." + bytes([0, 1, 9, 11, 12, 28, 29, 30, 32, 58, 127, 128, 133, 160, 194, 195, 169, 226, 254, 255])
+BPOOL = [b"\x00", b".\x00", b"\xff", b".\xff", b"\x80:", b"\xc3\xa9t\xc3\xa9", b"\x0b", b"\x0c.", b".\x85", b"\x1c\x1d\x1e",
+         b"\xe2\x80\xa8", b"RSET\x00", b"\xa0.", b"Subject: caf\xe9"]
 
 
 def _segs(rng, n):
@@ -455,7 +581,24 @@ def _segs(rng, n):
     return out
 
 
-def _gen_e2e(rng):
+PREVS = [b"x", b"Subject: s\n\nbody\n", b"a\n.", b".\n", b"", b"no colon\n"]
+
+
+def _session_kw(rng):
+    kw = dict(server=rng.choice(["ESMTP", "SMTP"]), hdr=rng.random() < 0.3, rcpts=rng.choice([1, 1, 1, 2, 2, 3]),
+              eager=rng.random() < 0.4, defaults=rng.random() < 0.35)
+    if rng.random() < 0.25:
+        prev = []
+        for _ in range(rng.choice([1, 1, 1, 2])):
+            b = rng.choice(PREVS)
+            prev.append(_refused(b) if rng.random() < 0.4 else b.hex())
+        kw["prev"] = prev
+    return kw
+
+
+def _gen_e2e(rng, big=0.035):
+    if rng.random() < big:
+        return _gen_big(rng)
     lines = [_line(rng) for _ in range(rng.choice([0, 1, 1, 2, 2, 3, 3, 4, 5, 7]))]
     terminated = True
     r = rng.random()
@@ -467,20 +610,69 @@ def _gen_e2e(rng):
     body = _hexbody(lines, terminated)
     n = len(body) // 2
     longest = max([wire_len(l) for l in lines] or [1])
-    max_ = DEFAULT_MAX if rng.random() < 0.6 else max(1, longest + rng.choice([-2, -1, 0, 0, 1, 1, 2]))
-    kw = dict(server=rng.choice(["ESMTP", "SMTP"]), max_=max_, hdr=rng.random() < 0.3, rcpts=rng.choice([1, 1, 2]))
-    if rng.random() < 0.15:
-        kw["prev"] = [rng.choice([b"x", b"Subject: s\n\nbody\n", b"a\n.", b".\n"]).hex()]
+    r = rng.random()
+    # the limit: left as the class defines it / set to the documented default / at the longest wire line -2..+2
+    max_ = None if r < 0.4 else DEFAULT_MAX if r < 0.6 else max(1, longest + rng.choice([-2, -1, 0, 0, 1, 1, 2]))
+    kw = _session_kw(rng)
+    kw["max_"] = max_
     wire_n = 2 * n + 8
     if rng.random() < 0.5:
-        chunk = rng.choice([1, 2, 3, 4, 5, 7, n, n + 1, max(1, n - 1), DEFAULT_MAX]) or 1
-        return _e2e(body, chunk=chunk, segs=_segs(rng, wire_n), **kw)
+        chunk = rng.choice([1, 2, 3, 4, 5, 7, n, n + 1, max(1, n - 1), DEFAULT_MAX, None])
+        if chunk is None:
+            return _e2e(body, real_chunk=True, segs=_segs(rng, wire_n), **kw)   # FileSender.CHUNK_SIZE as the class has it
+        return _e2e(body, chunk=chunk or 1, segs=_segs(rng, wire_n), **kw)
     reads, left = [], n
     while left > 0 and len(reads) < 40:
         k = rng.choice([1, 1, 2, 3, 4, 6])
         reads.append(k)
         left -= k
     return _e2e(body, reads=reads, segs=_segs(rng, wire_n), **kw)
+
+
+LONG = [997, 998, 999, 1000, 1001, 1002, 2048, 4096, 8191, 8192, 16382, 16383, 16384]
+
+
+def _gen_big(rng):
+    """bodies with lines near the documented limits (1000 = RFC 5321's text line, 16384 = MAX_LENGTH = CHUNK_SIZE), the
+    server's limit and the client's read size as the classes define them; dots right at the real read boundary; the
+    stream cut around the ends of the long lines (few pieces: the model run is quadratic in pieces x length)"""
+    lines = []
+    for _ in range(rng.choice([1, 1, 2, 3])):
+        k = rng.choice(LONG)
+        fill = bytes([rng.choice(b"xy z\xe9")])
+        l = (b"." + fill * (k - 1)) if rng.random() < 0.35 else fill * k
+        if wire_len(l) > DEFAULT_MAX and rng.random() < 0.85:
+            l = l[:-1]
+        lines.append(l)
+        if rng.random() < 0.6:
+            lines.append(_line(rng))
+    if rng.random() < 0.5:
+        # pad so that a line starts exactly at a multiple of the real read size
+        first = rng.choice([b".", b"..", b".RSET", b"x"])
+        lines = [b"p" * (REAL_CHUNK - 1), first] + lines
+    if rng.random() < 0.3:
+        lines.insert(0, _line(rng))
+    body = b"\n".join(lines) + b"\n"
+    wire = b"".join((b"." + l if l[:1] == b"." else l) + b"\r\n" for l in lines)
+    # cut points around the ends of the long lines: before CR, between CR and LF, after LF
+    pts, pos = set(), 0
+    for l in lines:
+        pos += wire_len(l) + 2
+        if len(l) >= 900 and rng.random() < 0.7:
+            pts.update(rng.sample([pos - 3, pos - 2, pos - 1, pos, pos + 1], rng.choice([1, 2, 2, 3])))
+    pts = sorted(x for x in pts if 0 < x < len(wire))[:8]
+    segs, last = [], 0
+    for x in pts:
+        segs.append(x - last)
+        last = x
+    kw = _session_kw(rng)
+    kw.pop("prev", None)
+    r = rng.random()
+    if r < 0.75:
+        return _e2e(body.hex(), real_chunk=True, segs=segs, max_=None, **kw)
+    if r < 0.9:
+        return _e2e(body.hex(), chunk=rng.choice([1000, 4097, 16383, 16385]), segs=segs, max_=None, **kw)
+    return _e2e(body.hex(), reads=[rng.choice([1, 999, 16384, 16383, 5000]) for _ in range(6)], segs=segs, max_=None, **kw)
 
 
 RAW = [b"\r\n", b"\r\n", b".", b".", b"\r", b"\n", b"a", b"b:", b"..", b".\r\n", b"\r\n.\r\n", b"RSET", b"abcdefgh", b" "]
@@ -498,20 +690,24 @@ def _gen_srv(rng):
 
 def generate(rng, tier):
     n = 1500 if tier == "quick" else 30000
+    big = 0.035 if tier == "quick" else 0.012   # ~37 resp. ~250 bodies of 1..50 kB
     for i in range(n):
-        yield _gen_srv(rng) if rng.random() < 0.3 else _gen_e2e(rng)
+        yield _gen_srv(rng) if rng.random() < 0.3 else _gen_e2e(rng, big)
 
 
 def search(rng, tier, disagreeing):
     """every read-chunk size and the extreme cuts, for a fixed family of dot-rich bodies and for the disagreeing cases"""
     bodies = [_hexbody(ls) for ls in ([b"."], [b".", b"x"], [b".x"], [b"a", b"."], [b"a", b".", b"RSET"], [b"ab", b"..", b"."],
                                       [b"Subject: s", b"", b".", b"."], [b"", b"."], [b"x", b".y", b"z"])]
-    bodies += [c["body"] for c in disagreeing if c.get("op") == "e2e"]
+    # (the sweep is quadratic in the body: only small disagreeing bodies, and at most a handful of them)
+    bodies += [c["body"] for c in disagreeing if c.get("op") == "e2e" and len(c["body"]) <= 120][:12]
     for b in bodies:
         n = len(b) // 2
         for k in range(1, n + 2):
             for segs in ([], [1] * (2 * n + 8), [3] * n):
                 yield _e2e(b, chunk=k, segs=segs, server="ESMTP" if k % 2 else "SMTP")
+            yield _e2e(b, chunk=k, eager=True, defaults=True, max_=None, prev=[b"x".hex()])
+            yield _e2e(b, chunk=k, eager=True, prev=[_refused(b"a\n.")], rcpts=2)
     for _ in range(300 if tier == "quick" else 3000):
         yield _gen_e2e(rng)
 
@@ -532,18 +728,30 @@ def shrink(case):
         yield dict(case, hdr=False)
     if case.get("prev"):
         yield {k: v for k, v in case.items() if k != "prev"}
-    if case.get("max", DEFAULT_MAX) != DEFAULT_MAX:
+        if len(case["prev"]) > 1:
+            yield dict(case, prev=case["prev"][1:])
+            yield dict(case, prev=case["prev"][:1])
+        if any(isinstance(p, dict) for p in case["prev"]):
+            yield dict(case, prev=[p["body"] if isinstance(p, dict) else p for p in case["prev"]])
+    for flag in ("eager", "defaults"):
+        if case.get(flag):
+            yield {k: v for k, v in case.items() if k != flag}
+    for i, l in enumerate(lines):
+        if len(l) > 64:
+            for m in (len(l) // 2, len(l) - 1):
+                yield dict(case, body=b"\n".join(lines[:i] + [l[:m]] + lines[i + 1:]).hex())
+    if case.get("max", DEFAULT_MAX) not in (DEFAULT_MAX, None):
         yield dict(case, max=DEFAULT_MAX)
     for i in range(len(lines) - 1):
         yield dict(case, body=b"\n".join(lines[:i] + lines[i + 1:]).hex())
     for i, l in enumerate(lines):
-        for j in range(len(l)):
+        for j in range(min(len(l), 64)):
             yield dict(case, body=b"\n".join(lines[:i] + [l[:j] + l[j + 1:]] + lines[i + 1:]).hex())
     if case.get("reads") is not None:
         c = {k: v for k, v in case.items() if k != "reads"}
         for k in (DEFAULT_MAX, 1, 2, 3):
             yield dict(c, chunk=k)
-    elif case["chunk"] != DEFAULT_MAX:
+    elif case["chunk"] not in (DEFAULT_MAX, None):
         yield dict(case, chunk=DEFAULT_MAX)
 
 
@@ -557,6 +765,12 @@ def tag(case, out):
     after_boundary = any(c[:1] == b"." and cs[i][-1:] == b"\n" for i, c in enumerate(cs[1:]))
     segs = case["segs"]
     cut = "one" if not segs else "bytes" if set(segs) == {1} else "mixed"
-    return (f"e2e:{case['server']}:{'scope' if in_scope(case) else 'out'}:{'2nd:' if case.get('prev') else ''}start{int(body[:1] == b'.')}:bnd{int(after_boundary)}:"
+    prevs = case.get("prev", [])
+    hist = ("2nd" + ("r" if any(isinstance(p, dict) for p in prevs) else "") + ":") if prevs else ""
+    m = case.get("max", DEFAULT_MAX)
+    longest = max([len(l) for l in body.split(bytes([10]))] or [0])
+    return (f"e2e:{case['server']}:{'scope' if in_scope(case) else 'out'}:{hist}start{int(body[:1] == b'.')}:bnd{int(after_boundary)}:"
             f"lone{int(b'.' in body.split(bytes([10])))}:{'reads' if case.get('reads') is not None else 'chunk'}:{cut}:"
-            f"{'small' if case.get('max', DEFAULT_MAX) < 100 else 'dflt'}:{kinds}:{mode}")
+            f"{'cls' if m is None else 'small' if m < 100 else 'dflt'}:{'eager:' if case.get('eager') else ''}"
+            f"{'defaults:' if case.get('defaults') else ''}{'8bit:' if any(b > 126 or b < 9 for b in body) else ''}"
+            f"{'long:' if longest >= 900 else ''}{kinds}:{mode}")
